@@ -126,6 +126,22 @@ pub fn run(out: &mut Out, seed: u64, tier: &str) {
         let mut tailed: Vec<(usize, usize, f64)> = (1..=deg).map(|j| (j, 0, 1.0)).collect(); tailed.push((deg, deg + 1, 2.0)); tailed.push((deg + 1, deg + 2, 1.0));
         one(out, deg + 3, &tailed, &mut count, &mut nontrivial);
     }
+    // what the changed source lines mention: stars of that many leaves, chains and rings of that many atoms
+    let h = hints();
+    for &k in h.ints.iter().filter(|k| **k >= 3 && **k <= 64).take(5) {
+        for deg in [k - 1, k, k + 1] {
+            let star: Vec<(usize, usize, f64)> = (1..=deg).map(|j| (0, j, 1.0)).collect();
+            one(out, deg + 1, &star, &mut count, &mut nontrivial);
+        }
+        if k <= 64 {
+            for n in [k - 1, k, k + 1] {
+                let chain: Vec<(usize, usize, f64)> = (1..n).map(|j| (j - 1, j, 1.0)).collect();
+                one(out, n, &chain, &mut count, &mut nontrivial);
+                let mut ring = chain.clone(); ring.push((n - 1, 0, 1.0));
+                one(out, n, &ring, &mut count, &mut nontrivial);
+            }
+        }
+    }
     // bridged and multicentre motifs with the elements that occur in them: an atom of one element between two of another (the
     // three-atom path X-Y-X: bifluoride, a hydride or halide bridge, a bridging carbonyl carbon), and the four-ring X-Y-X-Y with two
     // terminal hydrogens on each X (diborane, Al2Cl6-like cores). A bond table may say such things whatever valence rules say, and the
@@ -147,7 +163,9 @@ pub fn run(out: &mut Out, seed: u64, tier: &str) {
     for _ in 0..(if tier == "thorough" { 300 } else { 40 }) { real.push(crate::gen::random_mol(&mut rng)); }
     // extended molecules and far-apart fragments: every unordered pair is a bond or a non-bonded pair however far apart the atoms are
     real.push(crate::gen::alkane(12)); real.push(crate::gen::alkane(if tier == "thorough" { 24 } else { 16 }));
-    for sep in [13.0, 30.0, 250.0, 1.0e4] {
+    let mut seps: Vec<f64> = vec![13.0, 30.0, 250.0, 1.0e4];
+    for mag in hints().magnitudes().into_iter().filter(|m| *m >= 3.0 && *m < 1e7).take(4) { seps.push(mag * 0.98); seps.push(mag * 1.05); }
+    for sep in seps {
         let a = real[rng.below(8)].clone(); let b = real[rng.below(8)].clone();
         real.push(crate::gen::union(&a, &crate::gen::moved(&b, &crate::gen::random_rotation(&mut rng), [sep, 0.3 * sep, -0.2 * sep])));
     }
